@@ -297,6 +297,22 @@ def rule_pa_groups(cx, rep, port):
     ls = p.func(mod, 'locate_statements')
     brk = [n for n in ast.walk(ls) if isinstance(n, ast.Break)]
     rep.decide(len(brk) == 1, 'first match wins', brk[0] if brk else ls, 'within a group the first (longest) matching statement wins', 'locate_statements no longer stops at the first matching statement of a group')
+    # every blank inside a multi-word keyword stands for "any number of blanks": the translation into a pattern replaces *all* of
+    # them (JavaScript's String.replace with a string pattern replaces the first one only)
+    flex = []
+    for c in ast.walk(ls):
+        if isinstance(c, ast.Call):
+            if dotted(c.func) == 'replace_all' and len(c.args) == 3 and const_value(c.args[1]) == ' ':
+                flex.append((c, True))
+            elif isinstance(c.func, ast.Attribute) and c.func.attr in ('replace', 'replaceAll') and len(c.args) == 2:
+                a0 = c.args[0]
+                if const_value(a0) == ' ':
+                    flex.append((c, port == 'py' or c.func.attr == 'replaceAll'))
+                elif isinstance(a0, ast.Call) and dotted(a0.func) == '__regex__' and a0.args[0].value in (' ', ' +', '\\s', '\\s+', '[ ]'):
+                    flex.append((c, 'g' in a0.args[1].value))
+    if flex:
+        firsts = [c for c, all_ in flex if not all_]
+        rep.decide(not firsts, 'flexible blanks', (firsts or [flex[0][0]])[0], 'every blank of a keyword becomes a flexible blank in its pattern', '`{}` replaces only the first blank of a keyword: in a three-word keyword (LEFT OUTER JOIN, STRICT LEFT JOIN) the second gap accepts exactly one blank, so an extra space or a tab there makes the keyword unrecognised'.format(node_text((firsts or [flex[0][0]])[0], 60)))
     srt = [c for c in walk_no_nested(ls) if isinstance(c, ast.Call) and (dotted(c.func) == 'sorted' or (isinstance(c.func, ast.Attribute) and c.func.attr == 'sort'))]
     rep.decide(len(srt) == 1, 'order-free location', srt[0] if srt else ls, 'located statements are ordered by position, so clause order is free', 'located statements are not sorted by position')
     dupchk = [r for r in walk_no_nested(ls) if isinstance(r, ast.Raise)]
@@ -1270,10 +1286,123 @@ def rule_pa_subst(cx, rep, port):
             fd = enclosing_func(c)
             where = '{}.{}'.format(m, fd.name if fd is not None else '<module>')
             is_fn = isinstance(repl, ast.Lambda) or getattr(repl, 'js_function_ref', None) is not None or (isinstance(repl, ast.Name) and (repl.id.startswith('__fn_') or any(k.split(':')[1] == repl.id for k in p.funcs)))
+            tab_vals = None
+            if isinstance(repl, ast.Name) and fd is not None:
+                from .hd import table_operand_values
+                tab_vals = table_operand_values(fd, repl.id)
             if isinstance(repl, ast.Constant) and isinstance(repl.value, str) or is_fn:
                 rep.holds('{}: replacement `{}`'.format(where, node_text(repl, 40)), c, 'constant template or function')
+            elif tab_vals is not None and all(isinstance(v_, ast.Constant) and isinstance(v_.value, str) for v_ in tab_vals):
+                rep.holds('{}: replacement `{}`'.format(where, node_text(repl, 40)), c, 'one of {} constant templates of a constant table'.format(len(tab_vals)))
             elif fd is None or not _expr_tainted(repl, _local_taint(fd, {a.arg for a in fd.args.args})):
                 rep.undecided('{}: replacement `{}`'.format(where, node_text(repl, 40)), c, 'non-constant replacement template that does not derive from a parameter: its content is not analysed')
             else:
                 rep.violated('{}: replacement `{}`'.format(where, node_text(repl, 40)), c, 'the replacement operand `{}` is not a constant: {} interprets it as a template ({}), so text substituted here is altered when it contains those sequences'.format(node_text(repl, 60), 'String.replace' if port == 'js' else 're.sub', '`$&`, `$1`, `$$`' if port == 'js' else 'backslash escapes and group references'))
     rep.require_count('template-interpreting substitutions', n, 12 if port == 'js' else 5, (p.files[mods[0]], 0))
+
+
+def _substring_guard(test, subject):
+    """the literals of a guard `subject contains c1 or subject contains c2 ...` (None when the test is something else)"""
+    def one(e):
+        if isinstance(e, ast.Compare) and len(e.ops) == 1:
+            l_, r_, op = e.left, e.comparators[0], e.ops[0]
+            if isinstance(l_, ast.Call) and isinstance(l_.func, ast.Attribute) and l_.func.attr in ('indexOf', 'find') and len(l_.args) == 1 and ast.dump(l_.func.value) == subject and isinstance(l_.args[0], ast.Constant) and isinstance(l_.args[0].value, str):
+                rt = node_text(r_).replace(' ', '')
+                if (isinstance(op, (ast.NotEq, ast.Gt)) and rt == '-1') or (isinstance(op, ast.GtE) and rt == '0'):
+                    return [l_.args[0].value]
+            if isinstance(op, ast.In) and isinstance(l_, ast.Constant) and isinstance(l_.value, str) and ast.dump(r_) == subject:
+                return [l_.value]
+        if isinstance(e, ast.Call) and isinstance(e.func, ast.Attribute) and e.func.attr == 'includes' and len(e.args) == 1 and ast.dump(e.func.value) == subject and isinstance(e.args[0], ast.Constant) and isinstance(e.args[0].value, str):
+            return [e.args[0].value]
+        if isinstance(e, ast.BoolOp) and isinstance(e.op, ast.Or):
+            out = []
+            for v in e.values:
+                r = one(v)
+                if r is None:
+                    return None
+                out.extend(r)
+            return out
+        return None
+    return one(test)
+
+
+def rule_rx_guard(cx, rep, port):
+    """a cheap substring test placed in front of a regular expression ("probe for the keyword first") must not be stronger than
+    the expression: every text the expression matches has to pass the probe, otherwise the two disagree on some spelling (case,
+    spacing) and the construct is silently not recognised.  Decided by language inclusion L(regex) <= L(.*(c1|c2|..).*) with a
+    witness; zero sites expected on a tree without such fast paths (the matcher is exercised on a built-in example)."""
+    import re as _re
+    from .. import regexlang as R
+
+    def included(pattern, flags_i, lits, flavour, anchored):
+        pat = pattern if anchored else '^.*(?:{}).*$'.format(pattern)
+        a = R.Lang(pat, flags=(_re.IGNORECASE if flags_i else 0), flavour=flavour)
+        b = R.Lang('^.*(?:{}).*$'.format('|'.join(_re.escape(x) for x in lits)), flavour='py')
+        eq, w1, w2 = R.compare(a, b)
+        return w1
+    # built-in positive example: the matcher must see that ' As ' passes the regex but not the probe
+    try:
+        if included('^(.*) ([Aa][Ss]) +x$', False, [' as ', ' AS '], 'py', True) is None:
+            rep.undecided('probe matcher', (cx.port(port).files[cx.engine_mod(port)], 0), 'the inclusion test does not find the witness of its built-in example')
+            return
+    except R.Unsupported as e:
+        rep.undecided('probe matcher', (cx.port(port).files[cx.engine_mod(port)], 0), str(e))
+        return
+    p = cx.port(port)
+    mods = [m for m in p.modules if m in ('rbql_engine', 'rbql', 'rbql_csv', 'csv_utils')]
+    n = 0
+    for st in regex_sites(cx, port, mods):
+        if st.pattern is None:
+            continue
+        node = st.node
+        # the application: /re/.exec(x), /re/.test(x), x.match(/re/), re.match(p, x), compiled.match(x)
+        app, subject = None, None
+        par = getattr(node, 'parent', None)
+        if port == 'js':
+            if isinstance(par, ast.Attribute) and par.attr in ('exec', 'test') and isinstance(getattr(par, 'parent', None), ast.Call) and par.parent.args:
+                app, subject = par.parent, par.parent.args[0]
+            elif isinstance(par, ast.Call) and isinstance(par.func, ast.Attribute) and par.func.attr in ('match', 'search') and node in par.args:
+                app, subject = par, par.func.value
+        else:
+            c = node
+            if isinstance(c, ast.Call) and (dotted(c.func) or '').startswith('re.') and len(c.args) >= 2 and (dotted(c.func) or '').split('.')[1] in ('match', 'search', 'fullmatch'):
+                app, subject = c, c.args[1]
+            elif isinstance(c, ast.Call) and isinstance(c.func, ast.Attribute) and c.func.attr in ('match', 'search', 'fullmatch') and c.args:
+                app, subject = c, c.args[0]
+        if app is None:
+            continue
+        sdump = ast.dump(subject)
+        guards = []
+        ch, q = app, getattr(app, 'parent', None)
+        fd = st.func
+        while q is not None and q is not fd:
+            if isinstance(q, ast.IfExp) and (ch is q.body or any(ch is x for x in ast.walk(q.body))):
+                guards.append(q.test)
+            if isinstance(q, ast.If) and any(ch is x for b in q.body for x in ast.walk(b)):
+                guards.append(q.test)
+            ch, q = q, getattr(q, 'parent', None)
+        # a flag computed just before: `may = x.indexOf(..) != -1 || ...; m = may ? rx.exec(x) : null`
+        resolved = []
+        for g_ in guards:
+            if isinstance(g_, ast.Name):
+                defs = [d for d in walk_no_nested(fd) if isinstance(d, ast.Assign) and len(d.targets) == 1 and is_name(d.targets[0], g_.id)]
+                if len(defs) == 1:
+                    g_ = defs[0].value
+            resolved.append(g_)
+        for g_ in resolved:
+            lits = _substring_guard(g_, sdump)
+            if not lits:
+                continue
+            n += 1
+            key = '{}: probe in front of `{}`'.format(fd.name, st.pattern[:40])
+            anchored = st.pattern.startswith('^') or (port == 'py' and isinstance(app, ast.Call) and ((dotted(app.func) or '').endswith('match') or getattr(app.func, 'attr', '') in ('match', 'fullmatch')))
+            try:
+                w = included(st.pattern if (st.pattern.startswith('^') or not anchored) else '^' + st.pattern + '.*$', st.ignorecase, lits, 'js' if port == 'js' else 'py', True if anchored else False)
+            except R.Unsupported as e:
+                rep.undecided(key, app, 'regular expression outside the supported fragment: {}'.format(e))
+                continue
+            if w is not None:
+                rep.violated(key, app, 'the expression is applied only to texts containing one of {}, but it matches {!r}, which contains none of them: that spelling is silently not recognised here although the rest of the parser accepts it'.format(lits, w))
+            else:
+                rep.holds(key, app, 'every text the expression matches contains one of {}'.format(lits))
+    rep.holds('probe sites', (p.files[cx.engine_mod(port)], 0), '{} substring probe(s) in front of a regular expression examined (matcher checked on a built-in example)'.format(n))
